@@ -190,9 +190,19 @@ Theorem C20_reaches_alt_clean : forall (L Op Out : Type) (Lo : lops L Op Out) (s
 Proof. intros L Op Out Lo. exact (reaches_alt_gen Lo). Qed.
 Print Assumptions C20_reaches_alt_clean.
 
+(* :ew / :ew! path (what vi's window switch issues): the alternate is made current first when the buffer is beyond slot 1,
+   then the named buffer is reached exactly as with :e -- nothing is read, the file system is untouched. *)
+Theorem C20_reaches_ew : forall (L Op Out : Type) (Lo : lops L Op Out) (s : st L) (bang : bool) (a : parg) (p : path) (i : nat) (b : buf L),
+  (bang || xwa s = true \/ dirty_at Lo s 0 = false) ->
+  pathexpand s a = Some p -> p <> [] -> bufs_find s p = Some i -> (1 <= i)%nat -> nth_error (bufs s) i = Some (Some b) ->
+  let r := ec_edit Lo s bang true a in
+  snd r = true /\ snd (fst r) = [] /\ slot0 (fst (fst r)) = Some b /\ xv (fst (fst r)) = b_view b /\ fs (fst (fst r)) = fs s.
+Proof. intros L Op Out Lo. exact (reaches_ew Lo). Qed.
+Print Assumptions C20_reaches_ew.
+
 (* The summary over whole command lines (ex_command = the command + the closing lbuf_modified): in a well-formed table,
    if command c names the buffer b in slot i >= 1 (BufsReach.names: `b n` -- id n; `b +` / `b -` -- least id above / greatest
-   id below the current one; `b #`, `b ^` -- slots 1, 2; `e`/`e!` path, `e #`, `e %` -- the first slot whose path is the
+   id below the current one; `b #`, `b ^` -- slots 1, 2; `e`/`e!`/`ew`/`ew!` path, `e #`, `e %` -- the first slot whose path is the
    expanded argument) and the command is not refused (`!`, writeany, or the current buffer is clean), then afterwards b is the
    current buffer (its lbuf only bumped), the globals are its saved view and the file system is untouched (nothing re-read);
    and the named buffer is unique. *)
